@@ -252,6 +252,12 @@ def gen_features(rng):
         spec['solves'] = [[k, float(rng.choice([0.0, round(rng.uniform(-0.5, 0.5) * a, 4)]))]]
     if rng.random() < 0.05:
         spec['image_surface_class'] = True
+    if rng.random() < 0.2:
+        # the field type is given AFTER the fields were added (the order in which a lens is described is not part of it)
+        spec['field_type_late'] = True
+    if rng.random() < 0.15:
+        # the object-space medium is edited after construction (set_index on surface 0)
+        spec['object_index_edit'] = round(float(rng.uniform(1.2, 1.7)), 5)
     if fres and rng.random() < 0.5:
         ks_ = [k_ for k_, s_ in enumerate(surfs[:-1], start=1) if s_.get('coating') == 'fresnel' and s_.get('medium') != 'mirror'
                and k_ < K - 1 and surfs[k_].get('medium') != 'mirror']
@@ -330,7 +336,11 @@ def build(spec):
     sp = dict(spec)
     if spec.get('wl_unit') == 'nm':
         sp['wavelengths'] = []
+    if spec.get('field_type_late'):
+        sp['field_type'] = None
     L.finish(lens, sp)
+    if spec.get('field_type_late'):
+        lens.set_field_type(spec['field_type'])
     if spec.get('wl_unit') == 'nm':
         for w in spec['wavelengths']:
             lens.add_wavelength(value=w[0] * 1000.0, is_primary=bool(w[1]), unit='nm')
@@ -353,6 +363,11 @@ def solve_reachable(lens, k, h):
 
 
 def apply_features(lens, spec, rec):
+    if spec.get('object_index_edit'):
+        lens.set_index(float(spec['object_index_edit']), 0)
+        rec.cls('object-space-medium-edited')
+    if spec.get('field_type_late'):
+        rec.cls('field-type-set-after-fields')
     for p in spec.get('pickups', []):
         lens.pickups.add(p[0], p[1], p[2], p[3], p[4])
     for k, h in spec.get('solves', []):
@@ -502,6 +517,11 @@ def full_snapshot(lens):
         d['norm_y'] = None if not hasattr(g, 'norm_y') else _f(g.norm_y)
         d['material_pre'] = describe_material(s.material_pre)
         d['material_post'] = describe_material(s.material_post)
+        if s is sg.surfaces[0]:
+            # the medium "in front of" the object surface is no part of the prescription: no ray, index list or coating ever
+            # reads it (set_index(n, 0) leaves it at its old value, the file stores the medium behind the object only)
+            d['material_pre'] = None
+            d['n_pre'] = None
         d['coating'] = describe_coating(s.coating)
         ap = s.aperture
         d['aperture'] = None if ap is None else dict(cls=type(ap).__name__, r_max=_f(ap.r_max), r_min=_f(ap.r_min))
@@ -759,7 +779,8 @@ def par_diff(a, b):
     for name in PARAXIAL:
         x, y = a[name], b[name]
         if isinstance(x, tuple) or isinstance(y, tuple):
-            if x != y:
+            # (a tuple records that the query raised: one lens answering and the other raising is a difference)
+            if not (isinstance(x, tuple) and isinstance(y, tuple)) or x != y:
                 return name
             continue
         if x.shape != y.shape or not np.array_equal(x, y, equal_nan=True):
